@@ -15,6 +15,18 @@ CHECKS = {
          "For all 96 operations, generated typed outputs (plus 0-3 extra headers, optional status override) returned by a scripted backend are decoded by aws-sdk-s3 and must equal what was returned; wire status must be the model's code (206 with Content-Range) or the override; extra headers must be on the wire. CompleteMultipartUpload is run on a paused tokio clock for every completion delay 0..220 ms (thorough 0..450) x {ok, late error}: body = declaration, whitespace only, the same document as the undelayed run; header-bound members in declared trailers; late errors as <Error> documents.",
          "Trusted: aws-sdk-s3 as decoder, Smithy model for status codes/bindings, tokio's paused clock. Number/timing of whitespace frames not asserted.",
          "DESIGN.md §4 C03"),
+ "C05": ("proptest-driven search; differential verdict oracle against a reference SigV4 signer/verifier written from the AWS specification (validated on the documentation examples) and against aws-sigv4 as second signer; single-component mutations and canonical-equivalent metamorphic rewrites",
+         "Generated requests (method, any UTF-8 key, query multiset, header multiset incl. inner whitespace / repeated names, body, payload mode, HTTP/1.1 or HTTP/2 form) signed by the reference signer or aws-sigv4, then left honest, mutated in one signed component (header value/removal, query pair, path byte, method, body byte, signature digit, access key, scope date/region/service, x-amz-date, signed-header list) or rewritten canonical-equivalently (header order, edge whitespace, percent-encoding spelling, query order, unsigned header added): s3s's verdict must equal the reference verifier's, accepted requests are attributed to the scope's key/region/service, refused ones produce an error before any access hook or backend call.",
+         "Trusted: reference signer/verifier (self-tested at start-up against the 4 S3 documentation examples + presign + chunked examples). Don't-cares: freshness of x-amz-date, algorithm token, raw '+' in query, non-normal-form paths, unsigned x-amz-* headers, value order of repeated query names under non-unreserved characters.",
+         "DESIGN.md §4 C05"),
+ "C06": ("proptest-driven search; reference presigner/verifier + window predicate as oracle, aws-sdk-s3 presigner as second source; single-parameter mutation, duplication and removal",
+         "Presigned requests from the reference presigner (any key/query/extra signed headers, X-Amz-Expires from 1 s to 7 days and beyond, signing time placed before / inside / after the window relative to the real clock) and from aws-sdk-s3's presigner (GET/PUT/DELETE/HEAD), honest or with one mutation of any X-Amz-* or other parameter, method, path, signed header or signature digit: accepted iff the reference signature check passes and now is within [T-15min, T+expires]; refused requests reach no backend.",
+         "Trusted: reference presign verifier (documentation example), the system clock (30 s bands around the window edges are not asserted). X-Amz-Expires > 604800 is don't-care.",
+         "DESIGN.md §4 C06"),
+ "C15": ("proptest-driven search over event/error sequences; independent event-stream frame decoder (aws-smithy-eventstream, checks lengths and CRCs) as oracle at frame level, aws-sdk-s3 event receiver at full stack",
+         "Generated sequences of Records/Stats/Progress/Cont/End events and interleaved errors are framed by SelectObjectContentEventStream::into_byte_stream; the concatenated bytes must decode with aws-smithy-eventstream into the same number of messages in order, with string-typed :message-type/:event-type/:content-type (or :error-code/:error-message) headers and unchanged payloads (Stats/Progress XML re-read with an independent tokenizer). Full stack: the SDK's event receiver yields the same events in order and an error where the backend emitted one.",
+         "Trusted: aws-smithy-eventstream frame decoder, xmlparser. The Rust SDK cannot surface :message-type error details (it only knows event/exception), so code/message of errors are asserted at frame level only.",
+         "DESIGN.md §4 C15"),
  "C12": ("exhaustive enumeration of short bucket names + proptest-driven search over (bucket, key, percent-encoding spelling, host value, host configuration) with metamorphic path-style == virtual-hosted-style relation and verbatim-key oracle at a recording backend",
          "All 55 987 strings over {a,1,-,.,A,_} up to length 6 (thorough: 335 923 up to 7) plus padded 61-64 byte variants against naming predicates written from the S3 rules; generated requests in both addressing styles must show the backend the same bucket and exactly the client's key (any UTF-8, random escaping), keys <=1024 bytes accepted and longer ones refused with KeyTooLongError; IP/socket hosts are path-style; MultiDomain::new refuses invalid/overlapping lists and resolves hosts against their own domain.",
          "Trusted: harness naming predicates (self-tested on the documentation examples), RFC 3986 percent-encoder. Don't-cares: names between core-invalid and complete-valid, host-name case, string-but-not-label suffix domains.",
